@@ -401,8 +401,22 @@ def judge(ctx, case):
             kb = k.encode()
             if not 0 < len(kb) < 256:
                 continue
-            probe = isa.op('GET_VALUE') + bytes([len(kb)]) + kb \
-                + _auth.sweeper()
+            probe = isa.op('GET_VALUE') + bytes([len(kb)]) + kb
+            # ... and reads the same VALUE: what a single script gets is
+            # compared item by item by the later script itself
+            try:
+                got = list(functions.run_script(
+                    probe, copy.deepcopy(before),
+                    {CID: Recorder()})[1].deque)
+            except BaseException:
+                got = None
+            if got is not None and 0 < len(got) <= 8 and \
+                    all(len(x) < 200 for x in got):
+                for x in reversed(got):
+                    probe += isa.push(bytes(x)) + isa.op('EQUAL_VERIFY')
+                probe += isa.op('TRUE')
+                ctx.count('later_script_value_comparisons')
+            probe += _auth.sweeper()
             seen = []
             for pre in (0, 1, 2):
                 try:
